@@ -554,9 +554,8 @@ int main(int argc, char **argv)
   uint64_t t0 = vf::now_ms();
   bool exhaustive = true;
   std::string levels = "[";
-  std::vector<rational> upts = {rational(1), rational(1, 2)};
-  if (th)
-    upts.push_back(rational(2));
+  // a tick of 2 units is coarser than the delays of the menu: a delayed atom can still be due within the same tick() call
+  std::vector<rational> upts = {rational(1), rational(1, 2), rational(2)};
   // deviation bounds are completed in increasing order: every plan at the base bound first, then (thorough) one more
   // deviation for as long as the deadline allows
   std::vector<int> bounds = {(int)args.num("bound", th ? 4 : 3)};
